@@ -345,10 +345,14 @@ impl SpeedLimitTrainSim {
                             && self.state.speed != si::Velocity::ZERO)
                 )
             );
+            let was_at_rest = self.state.speed == si::Velocity::ZERO;
             self.step()?;
-            // a train at rest whose target speed is zero can never leave this loop
+            // a train that stays at rest through a step whose target speed is zero can never
+            // leave this loop (a target computed while it was still moving may be zero only
+            // because the brake look-ahead then reached a point the standing train is short of)
             ensure!(
-                self.state.speed != si::Velocity::ZERO
+                !was_at_rest
+                    || self.state.speed != si::Velocity::ZERO
                     || self.state.speed_target != si::Velocity::ZERO
                     || self.state.offset >= self.path_tpc.offset_end() - 1000.0 * uc::FT,
                 "{}
